@@ -45,7 +45,7 @@ TX = {
 # G-sim pass of the receiver: random behaviours (several injected records in a row, phase changes included);
 # in simulation TLC prints every out-edge of every visited state with the real, unmerged history.
 # The flip alphabet is cut to the 8 bits of the content-type byte so that it does not drown the other classes.
-SIM = {"quick": dict(num=30, depth=6, reps="{1, 5}"), "thorough": dict(num=300, depth=8, reps="{1, 4, 5, 101}")}
+SIM = {"quick": dict(num=30, depth=6, reps="{1, 5}"), "thorough": dict(num=150, depth=8, reps="{1, 5}")}
 SIM_FB = dict(FbApp=8, FbAlert=8, FbHs=8, FbCcs=8)
 REPS = {"quick": dict(normal=3, burst=400, early=40), "thorough": dict(normal=40, burst=5000, early=600)}
 
@@ -427,8 +427,9 @@ def selftest():
         print(f"selftest: corrupted {field} reported as {rule}: {hit}")
         ok &= hit
     # (iii)
-    e = {"role": "client", "phase": "Connected", "pre": [], "region": "", "authentic": True, "keys": True,
-         "act": {"ct": "AppData", "cls": "e1-auth", "src": "peer", "pos": -1, "how": "", "bits": 0},
+    start = {"rec": {"ct": "", "cls": "start", "src": "", "pos": -1, "how": "", "rep": 1}, "to": "Connected"}
+    e = {"role": "client", "phase": "Connected", "pre": [start], "region": "", "authentic": True, "keys": True,
+         "act": {"ct": "AppData", "cls": "e1-auth", "src": "peer", "pos": -1, "how": "", "bits": 0, "rep": 1},
          "exp": {"delivered": {"allowed": [0], "rule": "OnlyAuthentic"}, "state": {"allowed": ["Connected"], "rule": "OnlyAuthentic"}}}
     ep = os.path.join(ck.dir, "selftest_edge.ndjson")
     vlib.write_ndjson(ep, [e])
